@@ -343,6 +343,196 @@ async def handshake_oracle(sim):
 
 
 # ------------------------------------------------------------------------------------------------
+# the pair model (Model/ClosePair.v): one channel, both endpoints, byte counts
+
+PAIR_IMPORTS = ('From AV Require Import Base.Prelude Model.Close Model.ClosePair Corr.C09Corr.\n'
+                'Local Open Scope nat_scope.')
+SIDE = {'c': 'SA', 's': 'SB'}
+
+
+def _pair_wire(sim, side):
+    out = []
+    for m in sim.wire.meta[side]:
+        if m is None:
+            continue
+        t, p = m
+        if t in (94, 95):
+            off = 4 if t == 94 else 8
+            out.append((0, simmod._u32(p, off)))
+        elif t == 93:
+            out.append((1, simmod._u32(p, 4)))
+        elif t == 96:
+            out.append((2, 0))
+        elif t == 97:
+            out.append((3, 0))
+    return out
+
+
+def _pair_ep(sim, side):
+    r = sim.cch[0] if side == 'c' else sim.sch[0]
+    se = r['sess']
+    ch = r['chan'] if side == 's' else se.chan
+    regs = getattr(sim.conn[side], '_channels', None)
+    need = ('_send_state', '_recv_state', '_send_window', '_recv_window', '_recv_buf_len')
+    if regs is None or any(not hasattr(ch, a) for a in need):
+        return None
+    return (simmod.SS[ch._send_state], simmod.SS[ch._recv_state], ch.get_write_buffer_size(), ch._send_window,
+            ch._recv_window, ch._recv_buf_len, sum(1 for x in se.log if x in ('lost0', 'lost1')),
+            int(any(v is ch for v in regs.values())))
+
+
+def _pair_obs(sim):
+    a, b = _pair_ep(sim, 'c'), _pair_ep(sim, 's')
+    if a is None or b is None:
+        return None
+    err = bool(sim.wire.lost['c'] or sim.wire.lost['s'])
+    return (a, b, _pair_wire(sim, 'c'), _pair_wire(sim, 's'), err)
+
+
+def _lit_pobs(o):
+    f = lambda e: '(' + ','.join(str(x) for x in e) + ')'
+    w = lambda l: '[' + ';'.join(f'({a},{b})' for a, b in l) + ']'
+    return f'({f(o[0])},{f(o[1])},{w(o[2])},{w(o[3])},{core.cbool(o[4])})'
+
+
+async def pair_case(rng, wa, wb, ka, kb, length, script=None):
+    """one run of the pair alphabet on a real channel; returns (coq literal or None, harness ops)"""
+    sim = await simmod.Sim(window=wb, hw=1 << 20, pktsize=32768, buffer_data=False).start()
+    sim.W = wa                                                   # the client's receive window
+    await sim.run([['open', False, ka, True, kb, True, True], S, ['deliver_all', 'c'], S, ['deliver_all', 's'], S,
+                   ['deliver_all', 'c'], S, ['deliver_all', 's'], S, ['deliver_all', 'c'], S, ['deliver_all', 's'], S])
+    if not (sim.has('c', 0) and sim.has('s', 0)) or _pair_obs(sim) is None:
+        await sim.shutdown()
+        return None, []
+    RUN = ['ORun SA', 'ORun SB', 'ORun SA', 'ORun SB']
+    steps, hops = [], []
+    nchunks = {'c': 0, 's': 0}                                    # DATA packets buffered behind a paused reader
+    paused = {'c': False, 's': False}
+
+    def chan(side):
+        return (sim.cch[0] if side == 'c' else sim.sch[0])['sess'].chan
+
+    for k in range(length if script is None else len(script)):
+        if sim.wire.lost['c'] or sim.wire.lost['s']:
+            break
+        if script is not None:
+            op = script[k]
+        else:
+            side = rng.choice('cs')
+            ch = chan(side)
+            choices = []
+            for sd in 'cs':
+                if sim.pending(sd):
+                    choices.append((6, ['deliver', sd]))
+            if ch.get_write_buffer_size() == 0:
+                w_peer = wb if side == 'c' else wa
+                choices.append((4, ['write', side, 0, rng.choice([1, 5, w_peer // 2, w_peer, w_peer + 7, 2 * w_peer + 3])]))
+            choices += [(1, ['eof', side, 0]), (2, ['close', side, 0]), (1, ['abort', side, 0])]
+            if not paused[side]:
+                choices.append((2, ['pause', side, 0]))
+            elif nchunks[side] <= 1:
+                choices.append((3, ['resume', side, 0]))
+            tot = sum(w for w, _ in choices)
+            x = rng.random() * tot
+            for w, c in choices:
+                x -= w
+                if x <= 0:
+                    op = c
+                    break
+        hops.append(op)
+        kind = op[0]
+        if kind == 'deliver':
+            sd = op[1]
+            peer = 's' if sd == 'c' else 'c'
+            mops = []
+            while sim.pending(sd):
+                m = sim.next_meta(sd)
+                sim._deliver(sd)
+                if m is not None and m[0] in (93, 94, 95, 96, 97):
+                    mops = [f'ODeliver {SIDE[sd]}']
+                    if m[0] in (94, 95) and paused[peer]:
+                        nchunks[peer] += 1
+                    break
+        else:
+            side = op[1]
+            ch = chan(side)
+            try:
+                if kind == 'write':
+                    try:
+                        ch.write(b'x' * op[3])
+                    except OSError:
+                        pass
+                    mops = [f'OWrite {SIDE[side]} {op[3]}']
+                elif kind == 'eof':
+                    ch.write_eof()
+                    mops = [f'OEof {SIDE[side]}']
+                elif kind == 'close':
+                    ch.close()
+                    paused[side], nchunks[side] = False, 0
+                    mops = [f'OClose {SIDE[side]}']
+                elif kind == 'abort':
+                    ch.abort()
+                    paused[side], nchunks[side] = False, 0
+                    mops = [f'OAbort {SIDE[side]}']
+                elif kind == 'pause':
+                    ch.pause_reading()
+                    paused[side] = True
+                    mops = [f'OPause {SIDE[side]}']
+                elif kind == 'resume':
+                    ch.resume_reading()
+                    paused[side], nchunks[side] = False, 0
+                    mops = [f'OResume {SIDE[side]}']
+            except Exception as e:               # pragma: no cover
+                mops = []
+        await memwire.settle(simmod.SETTLE_TURNS)
+        o = _pair_obs(sim)
+        if o is None:
+            break
+        steps.append('([' + ';'.join(mops + RUN) + '],' + _lit_pobs(o) + ')')
+    await sim.shutdown()
+    lit = f'(({wa},{wb},{core.cbool(ka)},{core.cbool(kb)}),[' + ';'.join(steps) + '])'
+    return lit, hops
+
+
+async def pair_corr(ctx, n):
+    cases, metas = [], []
+    fixed = [
+        # both blocked, both close (the repaired deadlock); one blocked, the other closes; abort after close
+        [['pause', 'c', 0], ['pause', 's', 0], ['write', 'c', 0, 40], ['write', 's', 0, 40], ['deliver', 'c'], ['deliver', 's'],
+         ['close', 'c', 0], ['close', 's', 0]] + [['deliver', 'c'], ['deliver', 's']] * 8,
+        [['pause', 's', 0], ['write', 'c', 0, 40], ['deliver', 'c'], ['close', 'c', 0], ['close', 's', 0]] + [['deliver', 'c'], ['deliver', 's']] * 5,
+        [['pause', 's', 0], ['write', 'c', 0, 40], ['deliver', 'c'], ['close', 'c', 0], ['abort', 'c', 0], ['resume', 's', 0]] +
+        [['deliver', 'c'], ['deliver', 's']] * 5,
+        [['eof', 'c', 0], ['deliver', 'c'], ['deliver', 's'], ['close', 's', 0]] + [['deliver', 'c'], ['deliver', 's']] * 4,
+    ]
+    for k in range(len(fixed) + n):
+        wa, wb = ctx.rng.choice([(16, 16), (16, 64), (64, 16), (1, 5), (33, 16)])
+        ka, kb = ctx.rng.random() < 0.5, ctx.rng.random() < 0.5
+        script = fixed[k] if k < len(fixed) else None
+        if script is not None:
+            wa, wb = 16, 16
+        lit, hops = await pair_case(ctx.rng, wa, wb, ka, kb, ctx.rng.randint(10, 40), script)
+        if lit is None:
+            ctx.count('pair.skipped')
+            continue
+        cases.append(lit)
+        metas.append({'kind': 'pair', 'wa': wa, 'wb': wb, 'ka': ka, 'kb': kb, 'ops': hops})
+        ctx.note_case(('pair', wa, wb, ka, kb, json.dumps(hops)), nontrivial=len(hops) > 3)
+        for o in hops:
+            ctx.count('pair_op.' + o[0])
+    if not cases:
+        ctx.cov['correspondence']['close_pair'] = {'cases': 0, 'mismatches': 0, 'note': 'private channel attributes not available'}
+        return
+    bad = ctx.coq_cases('close_pair', PAIR_IMPORTS, 'chk_pair', cases,
+                        ty='(nat * nat * bool * bool) * list (list pop * pobs)', shard=60)
+    if bad:
+        ctx.broke('correspondence:close_pair', f'{len(bad)} of {len(cases)} runs differ from Model/ClosePair.v; first: '
+                  + json.dumps(metas[bad[0]])[:1500])
+        rel = ctx._write_replay({'property': 'C09', 'kind': 'corr-pair', 'case': metas[bad[0]], 'literal': cases[bad[0]]}, tag='corr-')
+        ctx.log('  first disagreeing pair run written to', rel)
+
+
+# ------------------------------------------------------------------------------------------------
 # fixed scenarios (always run; each is also cut at every settle point)
 
 def fixed_scenarios():
@@ -687,6 +877,8 @@ async def main_async(ctx):
                   f'{len(bad)} of {len(uniq)} endpoint traces differ from Model/Close.v; first: ' + json.dumps(first)[:1500])
         rel = ctx._write_replay({'property': 'C09', 'kind': 'corr', 'case': first, 'literal': uniq[bad[0]]}, tag='corr-')
         ctx.log('  first disagreeing trace written to', rel)
+    await pair_corr(ctx, 400 if thorough else 60)
+    ctx.log(f'pair model: {ctx.cov["correspondence"].get("close_pair", {}).get("cases", 0)} runs compared')
     # ---- dedicated sweeps --------------------------------------------------------------------------
     if budget.hangs < MAX_HANGS:
         n = await connect_cut_sweep(ctx, report)
